@@ -247,6 +247,43 @@ def h_create(n: int, k: int, probe: int, creator='asarray', kind='array', overwr
     reach('end')
 
 
+class _Boom(Exception):
+    pass
+
+
+def h_create_fails(n: int, k: int, probe: int, creator='asarray', kind='plaindir', fail='iterraise',
+                   _gate=None, _small=False):
+    """a creating function with overwrite=True whose input FAILS part-way (the iterable raises, or yields an
+    unconvertible chunk after the first): whatever it does to its own files, foreign content survives"""
+    assume(0 <= n <= RBIG and 1 <= k <= 1000)
+    w = new_world()
+    mk_target(w, kind, n)
+    checks = place_foreign(w, '/w/t', 'file', 'a') + place_foreign(w, '/w/t', 'dir-with-file', 'c')
+    if kind == 'plaindir':
+        checks.append('/w/t/user.txt')
+    before = snaps_of(w, checks)
+
+    def gen():
+        yield np.ndarray(dt_of('int32', 'little'), (k,), Seq.of(('new', 1), k))
+        if fail == 'iterraise':
+            raise _Boom('boom')
+        yield np.BadSeqItem(ValueError('could not convert string to float'))
+    try:
+        if creator == 'asarray':
+            D.array.asarray('/w/t', gen(), overwrite=True)
+        else:
+            RA.asraggedarray('/w/t', gen(), overwrite=True)
+        raise Violation('the failing creation did not raise')
+    except Violation:
+        raise
+    except Exception:
+        pass
+    if w.lookup('/w/t') is None:
+        raise Violation(f'{creator}(overwrite=True) that failed part-way removed the whole directory')
+    foreign_intact(w, before, probe, f'{creator}(overwrite=True) failing part-way')
+    reach('end')
+
+
 def h_stale_metadata(n: int, k: int, probe: int, creator='asarray', _gate=None, _small=False):
     """overwrite=True without metadata removes Darr's own stale metadata.json and nothing else"""
     assume(0 <= n <= RBIG and 1 <= k <= 1000)
@@ -379,6 +416,36 @@ def replay_c16(cex, d):
                     probs.append(f'clean delete raised {raised!r}')
                 if os.path.lexists(p):
                     probs.append('something remains after delete')
+        elif ob.startswith('W-create-fails'):
+            p = tmp + '/t'
+            mk(fx['kind'], p)
+            paths = place(p, 'file', 'a') + place(p, 'dir-with-file', 'c')
+            if fx['kind'] == 'plaindir':
+                paths.append(p + '/user.txt')
+            before = {q: _tree(q) for q in paths}
+            k = int(fx['k'])
+
+            class Boom(Exception):
+                pass
+
+            def gen():
+                yield rp.values(np_, k, (), 'int32')
+                if fx['fail'] == 'iterraise':
+                    raise Boom()
+                yield ['x', 'y']
+            try:
+                if fx['creator'] == 'asarray':
+                    darr.asarray(p, gen(), overwrite=True)
+                else:
+                    darr.asraggedarray(p, gen(), overwrite=True)
+                probs.append('did not raise')
+            except Exception:
+                pass
+            for q in paths:
+                if not os.path.lexists(q):
+                    probs.append(f'foreign {os.path.relpath(q, tmp)} was REMOVED by the failing creation')
+                elif _tree(q) != before[q]:
+                    probs.append(f'foreign {os.path.relpath(q, tmp)} modified')
         elif ob.startswith('D-nondarr'):
             p = tmp + '/t'
             mk(fx['kind'], p)
@@ -493,6 +560,12 @@ def obligations(tier):
     obs.append(Ob('W-create', 'h_create', splits=csplits, timeout=T, replay='replay_c16', sym='n, k, probe',
                   bounds='each of the 7 creating functions x previous occupant {Array with metadata, RaggedArray, plain dir, '
                          'empty dir, file, nothing} x overwrite flag; occupant sizes unbounded, created array 1<=k<=1000 rows'))
+    obs.append(Ob('W-create-fails', 'h_create_fails',
+                  splits=[dict(creator=c, kind=kd, fail=f) for c in ('asarray', 'asraggedarray')
+                          for kd in ('array', 'ragged', 'plaindir') for f in ('iterraise', 'unconvertible')],
+                  timeout=T, replay='replay_c16', sym='n, k, probe',
+                  bounds='overwrite=True over {Array, RaggedArray, plain dir} holding a foreign file and a foreign directory; the '
+                         'input iterable raises after the first chunk or yields an unconvertible chunk'))
     obs.append(Ob('W-stale-metadata', 'h_stale_metadata',
                   splits=[dict(creator=c) for c in creators[:4]], timeout=T, replay='replay_c16', sym='n, k, probe',
                   bounds='overwrite=True over an array with metadata.json and one foreign file'))
